@@ -7,6 +7,7 @@ import CkbVerif.Lemmas.RichReach
 import CkbVerif.Lemmas.RichCellPage
 import CkbVerif.Lemmas.RichHistory
 import CkbVerif.Lemmas.IndexerDeep
+import CkbVerif.Lemmas.IndexerDeepQuery
 
 /-!
 # C18, round 6 — the tx-pool overlay, the handlers' snapshot discipline, the descending seek key,
@@ -37,6 +38,8 @@ Model: `CkbVerif.Model.IndexerPool` (follows `util/indexer-sync/src/pool.rs`, th
 * `desc_seek_covers` / `desc_seek_17_witness` — the descending seek key lies above every row while the
   keys continue the prefix with at most `MAX_PREFIX_SEARCH_SIZE − args_len` bytes; a 17-byte padding
   (seeded change r5m2) hides the rows of a script whose args continue the searched args with 17 × 0xff.
+* `kv_queries_after_any_reorg` — after such a history EVERY query call (cells, capacity, transactions,
+  any cursor) answers exactly as on the plain replay of the surviving chain.
 * `kv_follows_chain_any_reorg`, `kv_follows_checked_chain_any_reorg`, `kv_rollback_to_empty` — KEY-VALUE
   model: from the store of any chain, after ANY history of appends and rollbacks (any depth, residue
   of abandoned blocks included) whose appended blocks passed the per-append checks and did not run the
@@ -236,7 +239,9 @@ number not a multiple of the prune interval, or at most `keep_num + 1`), and no 
 with no block of the history left. Then, for the surviving chain `bl = c0 ++` (the appended blocks not
 rolled back): every answer row of the store is the replay spec of `bl` (OutPoint rows = `replayLive bl`,
 Tx*Script rows = `replayTxLock` / `replayTxType`, Cell*Script rows index exactly the replayed live
-cells), i.e. the answer rows of the plain replay of `bl` (`AnsEq`); the tip is the last surviving block
+cells); more: EVERY row that is not a ConsumedOutPoint row — Header and TxHash rows included — is the
+row of the plain replay of `bl` (`NcEq`; the ConsumedOutPoint rows differ by the residue of abandoned
+blocks, which `rollback` never deletes, by design of the code); the tip is the last surviving block
 of the history (the tip of `c0`'s store when none is left); the keys are duplicate-free; and `bl`
 satisfies the chain hypotheses of all the query theorems of `Props/C18.lean`. -/
 theorem kv_follows_chain_any_reorg (keep interval : Nat) (c0 : List Block)
@@ -253,6 +258,7 @@ theorem kv_follows_chain_any_reorg (keep interval : Nat) (c0 : List Block)
     (∀ sc bn txi io t, get S (.cellType sc bn txi io) = some (.tx t) ↔
       ∃ c : Cell, replayLive bl ⟨t, io⟩ = some c ∧ c.out.type = some sc ∧ c.bn = bn ∧ c.txIdx = txi) ∧
     AnsEq S (bl.foldl (append keep interval) []) ∧
+    NcEq S (bl.foldl (append keep interval) []) ∧
     (tip S = match hist.getLast? with
       | some b => some (b.number, b.hash)
       | none => tip (c0.foldl (append keep interval) [])) ∧
@@ -262,7 +268,7 @@ theorem kv_follows_chain_any_reorg (keep interval : Nat) (c0 : List Block)
   obtain ⟨g, si⟩ := kv_history_aux keep interval _ c0 evs (c0.foldl (append keep interval) [], [])
     (good_start keep interval c0 h2 h3 h3t) trivial h
   have htip := good_tip keep interval _ c0 _ _ g si
-  obtain ⟨rel, heq, c2, c3, c3t⟩ := g
+  obtain ⟨rel, hncC, heq, c2, c3, c3t⟩ := g
   have hrep := outPoint_eq_replay keep interval bl c2
   have hcell : ∀ (op : OutPoint) (c : Cell),
       get (bl.foldl (append keep interval) []) (.outPoint op) = some (.cell c) ↔ replayLive bl op = some c := by
@@ -272,7 +278,7 @@ theorem kv_follows_chain_any_reorg (keep interval : Nat) (c0 : List Block)
   refine ⟨fun op => by rw [heq _ rfl]; exact hrep op,
     fun sc bn i io t => by rw [heq _ rfl]; exact txLock_eq_replay keep interval bl c3 sc bn i io t,
     fun sc bn i io t => by rw [heq _ rfl]; exact txType_eq_replay keep interval bl c3t sc bn i io t, ?_, ?_,
-    heq, htip, rel.1, c2, c3, c3t⟩
+    heq, hncC, htip, rel.1, c2, c3, c3t⟩
   · intro sc bn txi io t
     rw [heq _ rfl, lockInv_chain2 keep interval bl [] lockInv_empty c2 sc bn txi io t]
     simp only [hcell]
@@ -305,13 +311,43 @@ theorem kv_follows_checked_chain_any_reorg (keep interval : Nat) (c0 : List Bloc
     let S := (kvRun keep interval (c0.foldl (append keep interval) [], []) evs).1
     let bl := c0 ++ kvChain (kvRun keep interval (c0.foldl (append keep interval) [], []) evs).2
     AnsEq S (bl.foldl (append keep interval) []) ∧
+    NcEq S (bl.foldl (append keep interval) []) ∧
     (∀ op, get S (.outPoint op) = (replayLive bl op).map Val.cell) ∧
     ChainOK2 keep interval [] bl ∧ ChainOK3 keep interval [] bl ∧ ChainOK3T keep interval [] bl := by
   intro S bl
   obtain ⟨c2, c3, c3t⟩ := chainOK_of_checked keep interval c0 [] hc
-  obtain ⟨h1, _, _, _, _, heq, _, _, k2, k3, k3t⟩ :=
+  obtain ⟨h1, _, _, _, _, heq, hnc, _, _, k2, k3, k3t⟩ :=
     kv_follows_chain_any_reorg keep interval c0 c2 c3 c3t evs h
-  exact ⟨heq, h1, k2, k3, k3t⟩
+  exact ⟨heq, hnc, h1, k2, k3, k3t⟩
+
+/-- **every query answers as on the plain replay of the surviving chain, after reorganisations of ANY
+depth.** Under the hypotheses of `kv_follows_chain_any_reorg` and in-range numbers of the surviving
+chain (`BlockBounded`: u64 block number, at most 2^32 transactions / inputs / outputs — the key order
+is read numerically), the ACTUAL store `S` (ConsumedOutPoint residue of abandoned blocks included) and
+the store of the plain replay of the surviving chain `bl` give the SAME answer to every call of
+`get_cells`, `get_cells_capacity`, `get_transactions` (ungrouped and grouped) — every search key, mode,
+filter, order, limit and cursor, the returned cursor included — and the same tip. So every theorem of
+`Props/C18.lean` / this file about the answers on the store of a chain (= filter over `replayLive`,
+order, LIMIT/CURSOR, capacity = sum, transactions, overlay) holds verbatim for the store after the
+history, with `bl` as the chain. -/
+theorem kv_queries_after_any_reorg (keep interval : Nat) (c0 : List Block)
+    (h2 : ChainOK2 keep interval [] c0) (h3 : ChainOK3 keep interval [] c0) (h3t : ChainOK3T keep interval [] c0)
+    (evs : List KvEv) (h : kvOKB keep interval (c0.foldl (append keep interval) [], []) evs = true)
+    (hb : ∀ b ∈ c0 ++ kvChain (kvRun keep interval (c0.foldl (append keep interval) [], []) evs).2, BlockBounded b) :
+    let S := (kvRun keep interval (c0.foldl (append keep interval) [], []) evs).1
+    let C := (c0 ++ kvChain (kvRun keep interval (c0.foldl (append keep interval) [], []) evs).2).foldl
+      (append keep interval) []
+    (∀ ls q exact f desc limit cursor, getCells S ls q exact f desc limit cursor = getCells C ls q exact f desc limit cursor) ∧
+    (∀ ls q exact f, getCellsCapacity S ls q exact f = getCellsCapacity C ls q exact f) ∧
+    (∀ ls q exact fs br desc limit cursor,
+      getTxs S ls q exact fs br desc limit cursor = getTxs C ls q exact fs br desc limit cursor) ∧
+    (∀ ls q exact fs br desc limit cursor,
+      getTxsGrouped S ls q exact fs br desc limit cursor = getTxsGrouped C ls q exact fs br desc limit cursor) ∧
+    tip S = tip C := by
+  intro S C
+  obtain ⟨_, _, _, _, _, _, hnc, _, hnd, _⟩ := kv_follows_chain_any_reorg keep interval c0 h2 h3 h3t evs h
+  exact queries_ncEq hnd (nodup_chain keep interval _ [] trivial) hnc
+    (keysBounded_chain keep interval _ [] (fun _ he => by cases he) hb)
 
 def kq3 : Block := ⟨3, 15, [⟨10, [⟨0, 4294967295⟩], [⟨5, ⟨1, [1]⟩, none, []⟩]⟩]⟩
 def kq4 : Block := ⟨4, 16, [⟨11, [⟨0, 4294967295⟩], []⟩, ⟨12, [⟨10, 0⟩], [⟨4, ⟨1, [1]⟩, none, []⟩]⟩]⟩
@@ -333,18 +369,18 @@ example :
   decide +kernel
 
 /-- **a rollback of any depth**: appending `k` checked blocks to the empty store and rolling back `k`
-times leaves no answer row, no Header row and no TxHash row (only ConsumedOutPoint residue), for every
-`k`; more generally the history theorem above with `evs = apps ++ rollbacks`. -/
+times leaves NO row that is not a ConsumedOutPoint row — no answer row, no Header row, no TxHash row,
+only the residue — for every `k`; more generally the history theorem above with `evs = apps ++ rollbacks`. -/
 theorem kv_rollback_to_empty (keep interval : Nat) (bs : List Block)
     (h : kvOKB keep interval ([], []) (bs.map KvEv.app ++ List.replicate bs.length KvEv.rb) = true) :
     let S := (kvRun keep interval ([], []) (bs.map KvEv.app ++ List.replicate bs.length KvEv.rb)).1
-    (∀ k, k.isAnswer = true → get S k = none) ∧ tip S = none := by
+    (∀ k, (∀ bn op, k ≠ .consumed bn op) → get S k = none) ∧ tip S = none := by
   intro S
-  obtain ⟨_, _, _, _, _, heq, htip, _⟩ :=
+  obtain ⟨_, _, _, _, _, _, hnc, htip, _⟩ :=
     kv_follows_chain_any_reorg keep interval [] trivial trivial trivial _ h
-  simp only [List.foldl_nil, List.nil_append] at heq htip
-  rw [kvRun_apps_rbs_chain keep interval bs] at heq htip
-  exact ⟨fun k hk => by rw [heq k hk]; rfl, htip⟩
+  simp only [List.foldl_nil, List.nil_append] at hnc htip
+  rw [kvRun_apps_rbs_chain keep interval bs] at hnc htip
+  exact ⟨fun k hk => by rw [hnc k hk]; rfl, htip⟩
 
 /-! ## relational model: rollbacks of any depth, any interleaving -/
 namespace RichIndexer
